@@ -303,6 +303,14 @@ func trunc(s string) string {
 // ViolationCount returns the number of distinct violation keys so far.
 func (c *Check) ViolationCount() int { c.mu.Lock(); defer c.mu.Unlock(); return len(c.viol) }
 
+// IsKnown reports whether key is a listed known finding of this property (harnesses use it to keep
+// exploring past a known defect instead of stopping at it).
+func (c *Check) IsKnown(key string) bool {
+	c.knownOnce.Do(func() { c.known = c.loadKnown() })
+	_, ok := c.known[key]
+	return ok
+}
+
 // HasViolation reports whether key was recorded.
 func (c *Check) HasViolation(key string) bool {
 	c.mu.Lock()
